@@ -44,7 +44,7 @@ def v_paths(ctx, tname, adtp, maxn):
     if res is None:
         return None, why
     seen = set()
-    for events, ret, nexts, valid in res:
+    for events, ret, nexts, valid, _assumed in res:
         failed = any(e[0] in ("validate", "in01") and not e[2] for e in events)
         is_ok = ret[0] == "agg" and ret[2] == "Ok"
         if failed:
